@@ -1,15 +1,21 @@
 #!/bin/bash
-# usage: seed_verify.sh <PROP> <mutant-dir> <name>   — confirm a seeded change in a scratch worktree of the pinned commit,
-# then store it under /verif/seeded/<name>/ (patch.diff, demo, meta.json). Removes the worktree afterwards.
-prop=$1; mdir=$2; name=$3
+# usage: seed_verify.sh <PROP> <mutant-dir> <name> [base-commit]  — confirm a seeded change in a scratch worktree of /repo
+# (default base: /repo's HEAD), then store it under /verif/seeded/<name>/ (patch.diff, demo, meta.json). Removes the worktree afterwards.
+prop=$1; mdir=$2; name=$3; base=${4:-$(git -C /repo rev-parse --short HEAD)}
 wt=/tmp/seedv/$name
 rm -rf "$wt"; mkdir -p /tmp/seedv
-git -C /repo worktree add -q --detach "$wt" 53522da || exit 2
+git -C /repo worktree add -q --detach "$wt" "$base" || exit 2
 demo=$(ls "$mdir"/demo*.py | head -1)
 cd "$wt"
 export PYTHONPATH="$wt/src"
 clean_rc=$(timeout 300 /venv/bin/python "$demo" >/dev/null 2>&1; echo $?)
-git apply "$mdir/patch.diff" || { echo "$name: patch does not apply to pinned commit"; git -C /repo worktree remove --force "$wt"; exit 3; }
+if ! git apply "$mdir/patch.diff" 2>/dev/null; then
+  if ! git apply --3way "$mdir/patch.diff" 2>/dev/null; then
+    echo "$name: patch does not apply to $base"; cd /; git -C /repo worktree remove --force "$wt"; exit 3
+  fi
+  git reset -q
+fi
+git diff > /tmp/seedv/$name.rebased.diff
 mut_rc=$(timeout 300 /venv/bin/python "$demo" >/dev/null 2>&1; echo $?)
 suite=$(timeout 1200 /venv/bin/python -m pytest -q -p no:cacheprovider --timeout=900 tests 2>&1 | tail -1)
 cd /
@@ -20,20 +26,21 @@ echo "$name: demo clean rc=$clean_rc mutated rc=$mut_rc suite='$suite'"
 if [ "$clean_rc" = "0" ] && [ "$mut_rc" != "0" ] && [ "$ok" = "1" ]; then
   out=/verif/seeded/$name
   mkdir -p "$out"
-  cp "$mdir/patch.diff" "$out/patch.diff"
+  cp /tmp/seedv/$name.rebased.diff "$out/patch.diff"
   cp "$demo" "$out/$(basename "$demo")"
   [ -f "$mdir/notes.md" ] && cp "$mdir/notes.md" "$out/notes.md"
-  python3 - "$prop" "$name" "$clean_rc" "$mut_rc" "$suite" <<'PY'
-import json,sys
-prop,name,c,m,suite=sys.argv[1:6]
-notes=open(f"/verif/seeded/{name}/notes.md").read() if __import__('os').path.exists(f"/verif/seeded/{name}/notes.md") else ""
-json.dump({"property":prop,"name":name,"base_commit":"53522da (pinned)",
+  python3 - "$prop" "$name" "$clean_rc" "$mut_rc" "$suite" "$base" <<'PY'
+import json,sys,os
+prop,name,c,m,suite,base=sys.argv[1:7]
+notes=open(f"/verif/seeded/{name}/notes.md").read() if os.path.exists(f"/verif/seeded/{name}/notes.md") else ""
+json.dump({"property":prop,"name":name,"base_commit":base,
  "needs_to_manifest":notes[:1500],
  "confirmed":{"demo_on_clean_tree_rc":int(c),"demo_with_change_rc":int(m),"test_suite_with_change":suite,
-              "how":"harness/seed_verify.sh in a scratch worktree of the pinned commit (removed afterwards)"}},
+              "how":"harness/seed_verify.sh in a scratch worktree of /repo at base_commit (removed afterwards)"}},
  open(f"/verif/seeded/{name}/meta.json","w"),indent=1)
 PY
   echo "$name: KEPT"
 else
   echo "$name: REJECTED"
 fi
+rm -f /tmp/seedv/$name.rebased.diff
